@@ -313,12 +313,22 @@ Fixpoint path_eqb (a b : path) : bool :=
 Definition count_href (h : string) (es : list ms_entry) : nat :=
   List.length (filter (fun e => String.eqb (me_href e) h) es).
 
+(** COPY or MOVE where one of source and destination lies properly inside the other: the
+    property asks for "some 4xx" there (403 only when they coincide).  The model answers
+    403 ([refusals]); the verdict on an observation accepts every 4xx. *)
+Definition properly_nested (a : areq) : bool :=
+  match a with
+  | ACopy s d _ _ | AMove s d _ => related s d && negb (is_prefix s d && is_prefix d s)
+  | _ => false
+  end.
+
 Definition spec_ok (root : path) (sb : option node) (r : request) (o : response) (sb' : option node) : bool :=
   let M := abs sb in
   let a := parse_req root r in
   let tag := tag_at (dir_tag r) sb (req_target root r) in
   let refs := refusals root M a (cond_refusals tag r) in
-  status_ok (status o) refs (success_status M a) &&
+  (status_ok (status o) refs (success_status M a) ||
+   (properly_nested a && N.leb 400 (status o) && N.ltb (status o) 500)) &&
   match refs with
   | _ :: _ => amap_agree (relevant_paths sb sb' a) (abs sb') M   (* refused: nothing changes *)
   | [] =>
